@@ -26,6 +26,9 @@ CHECKS["C09"] = ("respondent-level emptiness oracle vs. displayed element/subtot
 CHECKS["C05"] = ("metamorphic relation: every public output of a transformed run == the untransformed output re-indexed by row_order()/column_order() (Hypothesis; outputs enumerated by introspection)",
     "Generated-input search: for random surveys, insertions and random order (explicit, payload, every sort-by-value type with fixed lists incl. repeats) + hide + prune on both dimensions, all ~120 public lazyproperties of _Slice (and ~60 of _Strand) and the pairwise methods are snapshotted with and without the display transforms and compared through the reported signed display order; duplicates, extents, scalars, position-valued outputs included. Two defects fixed, three recorded as known findings.",
     "Partitions with every row or column hidden have only shape/labels/codes judged; outputs that raise without any display transform are treated as unavailable.", "6 C05")
+CHECKS["C04"] = ("metamorphic merge-the-addends relation + respondent-level signed sums + wave-difference rule (Hypothesis)",
+    "Generated-input search with three oracles: (direct) every inserted cell vs the signed sum over respondents and the NaN rules; (merge) the survey is rewritten so the addends are one category and every measure of the subtotal vector (counts, six bases, proportions, variances, std-errs, MoEs, z/p when both tables have rank>=2, pairwise t/p as compared and as selected column, scale statistics, population estimates) must equal the merged category's; (wave) categorical-date one-minus-one and multi-term differences. Two defects fixed, one recorded.",
+    "Share of sum is judged in C15; legacy PairwiseSignificance helpers and smoothed series excluded from the equivalence (stated in evidence).", "6 C04")
 NOT_BUILT = {}
 
 def main():
